@@ -98,7 +98,10 @@ class Interp:
         self.out = []
         self.steps = 0
         self.budget = budget
-        self.globals = {"size": KNative("size", lambda it, args: it.size_call(args))}
+        self.globals = {"size": KNative("size", lambda it, args: it.size_call(args)),
+                        "assert": KNative("assert", lambda it, args: it.assert_call(args)),
+                        "assert_eq": KNative("assert_eq", lambda it, args: it.assert_eq_call(args)),
+                        "type": KNative("type", lambda it, args: it.type_call(args))}
         self.exports = {}
         self.call_depth = []
 
@@ -363,6 +366,26 @@ class Interp:
             return r.v
         finally:
             self.call_depth.pop()
+    def assert_call(self, args):
+        if len(args) != 1 or not is_bool(args[0]):
+            raise RuntimeErr("args", "assert")
+        if not args[0]:
+            raise RuntimeErr("assert", "assertion failed")
+        return None
+    def assert_eq_call(self, args):
+        if len(args) != 2:
+            raise RuntimeErr("args", "assert_eq")
+        if not equal(args[0], args[1], self):
+            raise RuntimeErr("assert", "assertion failed")
+        return None
+    def type_call(self, args):
+        if len(args) != 1:
+            raise RuntimeErr("args", "type")
+        v = args[0]
+        if isinstance(v, tuple) and v and v[0] == "errstr":
+            return "String"
+        return type_name(v)
+
     def size_call(self, args):
         if len(args) != 1:
             raise RuntimeErr("args", "size")
@@ -885,6 +908,41 @@ class Interp:
         if isinstance(obj, KRange):
             if name == "to_tuple" and not args: return KTuple(list(range_values(obj)))
             if name == "to_list" and not args: return KList(list(range_values(obj)))
+        if isinstance(obj, (KList, KTuple, KIter, KRange)) and name in ("each", "keep", "fold", "consume", "any", "find", "count"):
+            src = self.iter_lazy(obj)
+            if name == "each" and len(args) == 1:
+                f = args[0]
+                return KIter((self.call(f, [x]) for x in src))
+            if name == "keep" and len(args) == 1:
+                f = args[0]
+                def keep_gen():
+                    for x in src:
+                        r = self.call(f, [x])
+                        if not is_bool(r): raise RuntimeErr("type", "keep predicate must return a Bool")
+                        if r: yield x
+                return KIter(keep_gen())
+            if name == "fold" and len(args) == 2:
+                acc = args[0]
+                for x in src:
+                    acc = self.call(args[1], [acc, x])
+                return acc
+            if name == "consume" and not args:
+                for x in src: pass
+                return None
+            if name == "count" and not args:
+                return sum(1 for _ in src)
+            if name == "any" and len(args) == 1:
+                for x in src:
+                    r = self.call(args[0], [x])
+                    if not is_bool(r): raise RuntimeErr("type", "any predicate must return a Bool")
+                    if r: return True
+                return False
+            if name == "find" and len(args) == 1:
+                for x in src:
+                    r = self.call(args[0], [x])
+                    if not is_bool(r): raise RuntimeErr("type", "find predicate must return a Bool")
+                    if r: return x
+                return None
         if isinstance(obj, KIter):
             if name == "to_tuple" and not args: return KTuple(self.iterate(obj))
             if name == "to_list" and not args: return KList(self.iterate(obj))
